@@ -6,7 +6,7 @@ def run(ver):
     wd = core.workdir("C13")
     binp = core.cargo_build("vh")
     maxcap, maxcalls = {"quick": ("4", "4"), "thorough": ("6", "5")}[ver.tier]
-    res = core.run_tlc("MC_C13", "MC_C13.cfg", wd, consts={"MaxCap": maxcap, "MaxCalls": maxcalls}, timeout=3000)
+    res = core.run_tlc("MC_C13", "MC_C13.cfg", wd, consts={"MaxCap": maxcap, "MaxCalls": maxcalls}, timeout=3000, coverage=True)
     core.tlc_failure(res, "MC_C13")
     ver.add_mc(res, f"MC_C13 MaxCap={maxcap} MaxCalls={maxcalls}: every sequence of write_all calls with lengths 0..cap+1 on six sink kinds; "
                     "invariants PositionLaw WholeChunks RefusedIffNoFit")
